@@ -1664,7 +1664,7 @@ class _rrulestr(object):
         # TZID values keep their case; look for them in the unfolded lines
         TZID_NAMES = dict(map(
             lambda x: (x.upper(), x),
-            re.findall('(?i)TZID=(?P<name>[^:]+):', '\n'.join(lines))
+            re.findall('(?i)TZID=(?P<name>[^:;]+)[:;]', '\n'.join(lines))
         ))
         lines = [line.upper() for line in lines]
         s = s.upper()
